@@ -19,6 +19,42 @@ CHECKS = {
             "read and written for every in-range value over four backgrounds and compared with the architectural "
             "bit positions. Exhaustive inside those bounds, silent outside them (32/64-bit operands off the alphabet).",
             "Trusted: armmc/ref/bv.py and armmc/ref/regfields.py (hand transcription of DDI 0406C).", "3 C17"),
+    "C16": ("explicit-state BFS over hub read/write histories on a fresh real hub with history replay, flat "
+            "first-match reference model + invariants in every state",
+            "Breadth-first search over all histories (depth 2; thorough adds a boundary-restricted depth 3) of reads and "
+            "writes of every size at every address of a 56-byte window, for 156 device layouts (1-3 devices, odd sizes, "
+            "adjacent / gapped / overlapping / shadowed). Every transition runs on a freshly built MemoryControllerHub "
+            "with the history replayed and is compared with a flat reference; device length, foreign bytes and "
+            "'no host error' are checked in every reached state.",
+            "Trusted: the 60-line flat model in checks/c16.py. Devices are RAM objects; other MemoryType subclasses "
+            "are not modelled.", "3 C16"),
+    "C13": ("complete product enumeration of the access-configuration matrix on the real ArmV6, each call/step "
+            "compared with a MemA/MemU reference over a flat byte map",
+            "All (accessor, get/set, size, address offset 0..7 at 4 bases incl. the end of a device and across 2^32, "
+            "CPSR.E, SCTLR.A, SCTLR.U, architecture version 5/6/7, mode, data) tuples are executed and compared with "
+            "ref.memmodel for value, fault/align-down/byte-wise behaviour and the exact byte footprint over all devices; "
+            "each store is read back; the same matrix runs through 10 ARM and 6 Thumb load/store instructions and "
+            "instruction fetch is checked with E=0/1.",
+            "Trusted: armmc/ref/memmodel.py. MPU off (protection is C14/C15); data values from a 3-value alphabet per "
+            "size.", "3 C13"),
+    "C05": ("complete enumeration of (instruction, cond, NZCV) on the real emulator with a differential oracle "
+            "(conditional run vs AL run vs no-op frame)",
+            "The 16-entry condition table is checked for all cond x NZCV through ARM cond fields, IT-block conditions "
+            "(16- and 32-bit) and B<c>; then every conditional instruction word the repository's tests decode (about 600 "
+            "encodings, all abstract opcodes) is executed under all 15 x 16 (cond, NZCV) pairs: failing => full snapshot "
+            "unchanged except PC+len and ITSTATE; passing => same snapshot diff as the AL execution.",
+            "Differential: no reference model. One operand tuple per encoding (the harvested word, registers pointing "
+            "into RAM). Instances the implementation itself rejects as UNPREDICTABLE and instances UNDEFINED under AL "
+            "are skipped.", "3 C05"),
+    "C20": ("schedule enumeration: all interleavings of 2-3 real instances x construction points; plus all "
+            "programs <= 3 x prefix points re-created on fresh and reused instances; differential trace oracle",
+            "(a) every program of length 1..3 over a 10-item ARM and a 10-item Thumb menu, every prefix point: the "
+            "snapshot is re-installed by assignment on a fresh instance and on 6 instances that ran other programs "
+            "(scratch state left behind) and the continuation trace must be identical; (b) every interleaving of the "
+            "steps of two (thorough: three) instances with every ordered tuple of 4 configurations (arch version, "
+            "PMSA/VMSA, extensions), every position of the later instance's construction, 16 program pairs: each "
+            "instance's trace (outcome + digest of the full snapshot after each step) must equal its solo trace.",
+            "Differential: no model. Traces use emulate_cycle() only; programs come from a fixed menu.", "3 C20"),
 }
 NOT_YET = "check not built yet in this round (see DESIGN.md section 3 for the planned bounded-exhaustive formulation)"
 
